@@ -5,7 +5,7 @@
 //! usage: session-driver SCRIPT.json
 //! script: {"emit": "stdout"|"files"|"check"|"json"|"checkstyle",
 //!          "steps": [{"file": PATH, "discover": bool, "config_path": PATH|null,
-//!                     "overrides": [[key, value], ...]}]}
+//!                     "overrides": [[key, value], ...], "setters": [[key, value], ...]}]}
 //! For every step the configuration is loaded the way `load_config` does it for that file
 //! (discovery from the file's directory, or an explicit path, or defaults), the overrides are applied
 //! through `Config::override_value` in the given order, and the file is formatted inside
@@ -67,6 +67,32 @@ impl Write for Shared {
     }
 }
 
+/// The typed setter API (`config.set().option(value)`) for the options the checks use it with.
+/// Returns false for an option this driver has no setter call for.
+fn apply_setter(config: &mut Config, k: &str, v: &str) -> bool {
+    macro_rules! num { ($name:ident) => { config.set().$name(v.parse().expect("number")) }; }
+    macro_rules! boolean { ($name:ident) => { config.set().$name(v == "true") }; }
+    match k {
+        "max_width" => num!(max_width),
+        "tab_spaces" => num!(tab_spaces),
+        "fn_call_width" => num!(fn_call_width),
+        "attr_fn_like_width" => num!(attr_fn_like_width),
+        "struct_lit_width" => num!(struct_lit_width),
+        "struct_variant_width" => num!(struct_variant_width),
+        "array_width" => num!(array_width),
+        "chain_width" => num!(chain_width),
+        "single_line_if_else_max_width" => num!(single_line_if_else_max_width),
+        "single_line_let_else_max_width" => num!(single_line_let_else_max_width),
+        "hard_tabs" => boolean!(hard_tabs),
+        "reorder_imports" => boolean!(reorder_imports),
+        "merge_imports" => boolean!(merge_imports),
+        "hide_parse_errors" => boolean!(hide_parse_errors),
+        "show_parse_errors" => boolean!(show_parse_errors),
+        _ => return false,
+    }
+    true
+}
+
 fn main() {
     let path = std::env::args().nth(1).expect("usage: session-driver SCRIPT.json");
     let script: serde_json::Value =
@@ -106,7 +132,14 @@ fn main() {
             let mut report_text = String::new();
             let mut error = None;
             match load_config(dir, Some(opts)) {
-                Ok((local, _)) => {
+                Ok((mut local, _)) => {
+                    if let Some(setters) = step["setters"].as_array() {
+                        for p in setters {
+                            if !apply_setter(&mut local, p[0].as_str().unwrap(), p[1].as_str().unwrap()) {
+                                error = Some(format!("no setter for {}", p[0]));
+                            }
+                        }
+                    }
                     session.override_config(local, |sess| match sess.format(Input::File(file.clone())) {
                         Ok(report) => {
                             if report.has_warnings() {
